@@ -26,6 +26,8 @@ PROJS = {
     "cube": lambda p: (lambda e, n: (e * e * e / p[0], n)),
     "square": lambda p: (lambda e, n: (e * e, n * n)),
     "shear": lambda p: (lambda e, n: (e + p[0] * n, n - p[0] * e)),
+    # smooth non-linear map with a smooth inverse (well conditioned both ways): used for profile() only (no rational model)
+    "sinh": lambda p: (lambda e, n: (p[0] * np.sinh(np.asarray(e) / p[0]), n)),
 }
 
 
@@ -38,8 +40,8 @@ def proj_fn(pr, inverse_too=False):
         return f
     if kind == "affine":
         g = lambda e, n: ((e - p[1]) / p[0], (n - p[3]) / p[2])  # noqa: E731
-    elif kind == "cube":
-        g = lambda e, n: (np.cbrt(np.asarray(e) * p[0]), n)  # noqa: E731   (monotone, NON-linear: e -> e^3 / k)
+    elif kind == "sinh":
+        g = lambda e, n: (p[0] * np.arcsinh(np.asarray(e) / p[0]), n)  # noqa: E731   (monotone, NON-linear)
     else:
         den = 1 + p[0] * p[0]
         g = lambda e, n: ((e - p[0] * n) / den, (n + p[0] * e) / den)  # noqa: E731
@@ -71,7 +73,7 @@ def mk_grid(coefs, rdef, region, shape, spacing, adjust, pixel, extra, coords, p
 
 
 def mk_profile(coefs, p1, p2, size, proj, extra, dims, names, kind):
-    if proj is not None and proj[0] == "cube":
+    if proj is not None and proj[0] == "sinh":
         # non-linear invertible projection: the model's rational inverse does not exist (cube root); decided by the oracle alone
         d = {"fn": "profile", "kind": kind + "-nonlinear", "args": [coefs, p1, p2, size, proj, extra, dims, names], "op": "check_region [ 0 1 0 1 ]"}
         d["key"] = repr(d["args"])
@@ -110,7 +112,7 @@ def corpus():
           mk_grid(ONE, None, [0.0, 4.0, 0.0, 2.0], (2, 2), None, "spacing", False, None, None, None, None, ["a", "b"], "bad-name-count"),
           mk_profile(ONE, (0.0, 0.0), (4.0, 2.0), 3, ["shear", [0.5]], [7.0], None, None, "corpus-profile"),
           mk_profile(ONE * 2, (1.0, -1.0), (1.0, 5.0), 5, None, None, ("y", "x"), ["u", "v"], "corpus-profile-vertical"),
-          mk_profile(ONE, (-2.0, 1.0), (4.0, 3.0), 7, ["cube", [16.0]], None, None, None, "corpus-profile"),
+          mk_profile(ONE, (-2.0, 1.0), (4.0, 3.0), 7, ["sinh", [4.0]], None, None, None, "corpus-profile"),
           mk_scatter(ONE, [0.0, 4.0, 0.0, 2.0], None, 5, 0, None, None, None, None, "corpus-scatter")]
     for k, which in enumerate(FITTED):
         cs.append(mk_fitted(which, 11 + k, (3, 4), None, "fitted-" + which))
@@ -184,7 +186,7 @@ def generate(rng, tier):
             extra = None if rng.random() < 0.7 else [rng.randint(-8, 8) / 2.0]
             pr = rand_proj(rng, invertible=True)
             if rng.random() < 0.25:
-                pr = ["cube", [rng.choice([1.0, 16.0])]]
+                pr = ["sinh", [rng.choice([2.0, 4.0, 16.0])]]
             cs.append(mk_profile(coefs, p1, p2, size, pr, extra, dims, names, "profile"))
         else:
             extra = None if rng.random() < 0.7 else [rng.randint(-8, 8) / 2.0]
